@@ -49,6 +49,8 @@ pub struct Stats {
     pub keys_compared: u64,
     pub samples: Vec<serde_json::Value>,
     pub inconclusive: u64,
+    pub failover_runs: u64,
+    pub failovers_not_clean: u64,
 }
 
 /// A history: a sequential part (one operation at a time, at any node, quiescence in between) and a
@@ -143,8 +145,10 @@ fn compare(sets: &[Data], tainted: &BTreeSet<String>) -> Vec<(String, String, &'
     out
 }
 
-pub fn run_history(n: usize, seq: &[COp], conc: &[COp], seed0: u64, v: &Verdicts, st: &Mutex<Stats>) {
-    let Some(mut c) = form_cluster(n, seed0, "c04") else {
+pub fn run_history(n: usize, seq: &[COp], conc: &[COp], failover: bool, seed0: u64, v: &Verdicts, st: &Mutex<Stats>) {
+    // with `failover` the history runs on the n survivors of an (n+1)-node cluster whose first primary was killed:
+    // every surviving link was opened under the old roles
+    let Some(mut c) = form_cluster(if failover { n + 1 } else { n }, seed0, "c04") else {
         st.lock().unwrap().inconclusive += 1;
         v.inconclusive("cluster formation (sequential joins) did not reach the C07 state");
         return;
@@ -157,22 +161,43 @@ pub fn run_history(n: usize, seq: &[COp], conc: &[COp], seed0: u64, v: &Verdicts
         c.shutdown();
         return;
     }
+    // logical node 0 is the primary, the others the secondaries; `phys` maps them to the simulation's node indexes
+    let phys: Vec<usize> = if failover {
+        c.kill_node(0);
+        let q = c.run_until_quiet();
+        let roles = c.roles();
+        let prim: Vec<usize> = (1..=n).filter(|i| roles[*i].as_deref() == Some("Primary")).collect();
+        let secs: Vec<usize> = (1..=n).filter(|i| roles[*i].as_deref() == Some("Secoundary")).collect();
+        if !matches!(q, Outcome::Quiet(_)) || prim.len() != 1 || secs.len() != n - 1 || !c.panics().is_empty() {
+            // the fail-over itself is C07's subject
+            st.lock().unwrap().failovers_not_clean += 1;
+            c.shutdown();
+            return;
+        }
+        st.lock().unwrap().failover_runs += 1;
+        prim.into_iter().chain(secs).collect()
+    } else {
+        (0..n).collect()
+    };
     for i in 0..n {
         for s in 0..(if i == 0 { 2 } else { 1 }) {
             let name = format!("s{}-{}", i, s);
-            c.open_session(&name, i);
+            c.open_session(&name, phys[i]);
             c.call(&name, "auth admin pwd");
             c.call(&name, "use-db d tok");
         }
     }
     let _ = c.run_until_quiet();
+    // operations registered for a node that died stay pending (the statement of C15 promises zero only under stable
+    // membership): what is pending when the history starts is the baseline the count must return to
+    let pending_baseline: Vec<usize> = phys.iter().map(|p| c.pending_ops(*p)).collect();
     let base_lines = c.link_log().len();
     let all_ops: Vec<String> = seq.iter().map(|o| format!("seq n{}: {}", o.node, o.line)).chain(conc.iter().map(|o| format!("conc n0/s{}: {}", o.session, o.line))).collect();
     let mut tainted: BTreeSet<String> = BTreeSet::new();
     let mut keys_compared = 0u64;
     let mut reported = false;
     let mut report = |c: &Cluster, sig: serde_json::Value, detail: String, sets: &Vec<Data>| -> bool {
-        v.report(sig, json!({"nodes": n, "seed": seed0, "ops": all_ops, "detail": detail, "datasets": sets,
+        v.report(sig, json!({"nodes": n, "seed": seed0, "after_failover": failover, "ops": all_ops, "detail": detail, "datasets": sets,
             "link_lines": c.link_log()[base_lines..].iter().map(|l| format!("[{}] n{}->n{} {}", l.0, l.1, l.2, l.3)).collect::<Vec<_>>()}))
     };
     let mut quiesce = |c: &mut Cluster| -> Result<(), String> {
@@ -188,7 +213,7 @@ pub fn run_history(n: usize, seq: &[COp], conc: &[COp], seed0: u64, v: &Verdicts
         let q = quiesce(&mut c);
         if o.kind == "snapshot" {
             for i in 0..n {
-                c.declutter(i);
+                c.declutter(phys[i]);
             }
         }
         if let Err(why) = q {
@@ -198,18 +223,18 @@ pub fn run_history(n: usize, seq: &[COp], conc: &[COp], seed0: u64, v: &Verdicts
                 c.shutdown();
                 return;
             }
-            let sets: Vec<Data> = (0..n).map(|i| c.dataset(i)).collect();
+            let sets: Vec<Data> = phys.iter().map(|i| c.dataset(*i)).collect();
             report(&c, json!({"check": "convergence", "cause": "sequential-operation", "op": o.kind, "issued_at": if o.node == 0 {"primary"} else {"secondary"}, "problem": why}), String::new(), &sets);
             reported = true;
             break 'seq;
         }
         if !c.panics().is_empty() {
-            let sets: Vec<Data> = (0..n).map(|i| c.dataset(i)).collect();
+            let sets: Vec<Data> = phys.iter().map(|i| c.dataset(*i)).collect();
             report(&c, json!({"check": "convergence", "cause": "sequential-operation", "op": o.kind, "issued_at": if o.node == 0 {"primary"} else {"secondary"}, "problem": "service-thread-panicked"}), c.panics().join(" | "), &sets);
             reported = true;
             break 'seq;
         }
-        let sets: Vec<Data> = (0..n).map(|i| c.dataset(i)).collect();
+        let sets: Vec<Data> = phys.iter().map(|i| c.dataset(*i)).collect();
         keys_compared += sets[0].values().map(|m| m.len() as u64).sum::<u64>() * (n as u64 - 1);
         for (db, k, divergence, node) in compare(&sets, &tainted) {
             // a snapshot turns later removes into tombstones that keep a version; nodes snapshot at different moments
@@ -239,11 +264,11 @@ pub fn run_history(n: usize, seq: &[COp], conc: &[COp], seed0: u64, v: &Verdicts
                 return;
             }
             Err(why) => {
-                let sets: Vec<Data> = (0..n).map(|i| c.dataset(i)).collect();
+                let sets: Vec<Data> = phys.iter().map(|i| c.dataset(*i)).collect();
                 report(&c, json!({"check": "convergence", "cause": "two-concurrent-primary-sessions", "problem": why}), String::new(), &sets);
             }
             Ok(()) => {
-                let sets: Vec<Data> = (0..n).map(|i| c.dataset(i)).collect();
+                let sets: Vec<Data> = phys.iter().map(|i| c.dataset(*i)).collect();
                 let mut seen = BTreeSet::new();
                 for (db, k, divergence, node) in compare(&sets, &tainted) {
                     // only keys both sessions touched are a concurrent case; the exception for racing versioned writes does not
@@ -268,9 +293,9 @@ pub fn run_history(n: usize, seq: &[COp], conc: &[COp], seed0: u64, v: &Verdicts
     // pending operations: with stable membership nothing stays pending (C15, end to end)
     if !reported {
         for i in 0..n {
-            if c.pending_ops(i) != 0 {
-                let sets: Vec<Data> = (0..n).map(|i| c.dataset(i)).collect();
-                report(&c, json!({"check": "convergence", "cause": "accounting", "problem": "pending-operations-left-at-quiescence"}), format!("n{} has {} pending", i, c.pending_ops(i)), &sets);
+            if c.pending_ops(phys[i]) != pending_baseline[i] {
+                let sets: Vec<Data> = phys.iter().map(|i| c.dataset(*i)).collect();
+                report(&c, json!({"check": "convergence", "cause": "accounting", "problem": "pending-operations-left-at-quiescence"}), format!("n{} has {} pending ({} before the history)", phys[i], c.pending_ops(phys[i]), pending_baseline[i]), &sets);
                 break;
             }
         }
@@ -279,7 +304,7 @@ pub fn run_history(n: usize, seq: &[COp], conc: &[COp], seed0: u64, v: &Verdicts
         let mut kinds: Vec<String> = seq.iter().map(|o| format!("{}@{}", o.kind, if o.node == 0 { "p" } else { "s" })).collect();
         kinds.sort();
         kinds.dedup();
-        format!("n{}|{}|conc{}|{:x}", n, kinds.join(","), conc.len(), c.decisions_hash() & 0xffff)
+        format!("n{}{}|{}|conc{}|{:x}", n, if failover { "f" } else { "" }, kinds.join(","), conc.len(), c.decisions_hash() & 0xffff)
     };
     {
         let mut s = st.lock().unwrap();
@@ -289,7 +314,7 @@ pub fn run_history(n: usize, seq: &[COp], conc: &[COp], seed0: u64, v: &Verdicts
         s.link_lines += (c.link_log().len() - base_lines) as u64;
         s.keys_compared += keys_compared;
         if s.samples.len() < 3 && seq.len() > 3 {
-            s.samples.push(json!({"nodes": n, "ops": all_ops, "link_lines": c.link_log()[base_lines..].iter().take(60).map(|l| format!("[{}] n{}->n{} {}", l.0, l.1, l.2, l.3)).collect::<Vec<_>>(), "final_dataset_primary": c.dataset(0)}));
+            s.samples.push(json!({"nodes": n, "ops": all_ops, "link_lines": c.link_log()[base_lines..].iter().take(60).map(|l| format!("[{}] n{}->n{} {}", l.0, l.1, l.2, l.3)).collect::<Vec<_>>(), "final_dataset_primary": c.dataset(phys[0])}));
         }
     }
     c.shutdown();
@@ -301,7 +326,7 @@ pub fn run(tier: &str) -> i32 {
     let thorough = tier == "thorough";
     let v = Verdicts::load("C04");
     let mut ev = Evidence::new("C04", tier, "exploration");
-    let st = Mutex::new(Stats { runs: 0, ops: 0, shapes: BTreeSet::new(), link_lines: 0, keys_compared: 0, samples: vec![], inconclusive: 0 });
+    let st = Mutex::new(Stats { runs: 0, ops: 0, shapes: BTreeSet::new(), link_lines: 0, keys_compared: 0, samples: vec![], inconclusive: 0, failover_runs: 0, failovers_not_clean: 0 });
     let n_runs = if thorough { 6000 } else { 400 };
     let next = std::sync::atomic::AtomicUsize::new(0);
     std::thread::scope(|sc| {
@@ -315,16 +340,20 @@ pub fn run(tier: &str) -> i32 {
                 let mut r = Rng::new(seed().wrapping_mul(2_000_003).wrapping_add(i as u64));
                 let n = r.range(2, 3);
                 let (seq, conc) = gen_history(&mut r, n);
-                run_history(n, &seq, &conc, r.next(), v, st);
+                // every fifth history runs on the survivors of a fail-over
+                let failover = i % 5 == 4;
+                run_history(n, &seq, &conc, failover, r.next(), v, st);
             });
         }
     });
     let s = st.into_inner().unwrap();
     ev.evaluations = s.runs;
     ev.distinct_nontrivial = s.shapes.len() as u64;
-    ev.rule = format!("{} simulated-cluster runs: 2-3 nodes formed through the real join/election path (quiet between joins), then a sequential part of 1-8 operations (set, set-safe, remove, increment, create-user, set-permissions, snapshot, create-db) each issued at the primary or (1/3) at a secondary and followed to quiescence with every node compared to the primary, and a concurrent part in which two sessions on the primary have 1-3 operations each queued at once on shared keys (the seeded token scheduler interleaves sessions, loops and FIFO link deliveries, incl. the gap between local apply and replication enqueue); distinct_nontrivial = distinct (cluster size, set of (operation kind, issuing role), delivery-order hash)", n_runs);
+    ev.rule = format!("{} simulated-cluster runs: 2-3 nodes formed through the real join/election path (quiet between joins; every fifth run uses the 2-3 survivors of a cluster whose first primary was killed and replaced by election), then a sequential part of 1-8 operations (set, set-safe, remove, increment, create-user, set-permissions, snapshot, create-db) each issued at the primary or (1/3) at a secondary and followed to quiescence with every node compared to the primary, and a concurrent part in which two sessions on the primary have 1-3 operations each queued at once on shared keys (the seeded token scheduler interleaves sessions, loops and FIFO link deliveries, incl. the gap between local apply and replication enqueue); distinct_nontrivial = distinct (cluster size, set of (operation kind, issuing role), delivery-order hash)", n_runs);
     ev.samples = s.samples.clone();
     ev.set("operations_issued", json!(s.ops));
+    ev.set("runs_on_the_survivors_of_a_failover", json!(s.failover_runs));
+    ev.set("failovers_that_did_not_settle_cleanly_and_were_not_used", json!(s.failovers_not_clean));
     ev.set("link_lines_during_operations", json!(s.link_lines));
     ev.set("key_comparisons_against_primary", json!(s.keys_compared));
     ev.set("inconclusive_runs", json!(s.inconclusive));
